@@ -215,7 +215,8 @@ def describe(cfg, prefix):
     return {"n_tries": cfg["n_tries"], "timeout": T, "sequence_mask": cfg.get("mask"), "sequence_start": cfg.get("advance", 0),
             "bursts": [{"api": b.get("api", "send_scp_burst"), "window_size": b["window"],
                         "commands": cmds(b)} for b in cfg["bursts"]],
-            "outcome_per_transmission": list(prefix) + ["ok ..."]}
+            "outcome_per_transmission": list(prefix) + ["ok ..."],
+            "held_replies": ("commands %r of the burst are answered once, 40 s after their transmission" % (cfg["stuck"],)) if cfg.get("stuck") else None}
 
 
 LOST = "lost"              # request lost on even transmissions, reply lost on odd ones (the same history at the client)
@@ -238,7 +239,9 @@ def configs(tier):
                 cfg = {"n_tries": tries, "bursts": [{"window": w, "cmds": [(0, 0)] * n}]}
                 out.append(("single", cfg, A7 if quick else A8, D))
                 if not quick:
-                    out.append(("single", cfg, FULL, D - 1))
+                    out.append(("single", cfg, FULL, D - 1))      # every outcome under its own name
+                    if n > 1 and tries > 1:
+                        out.append(("single", cfg, A7, D + 1))    # depth 7 without the late duplicate
     # A2: send_scp
     for tries in (1, 2, 3):
         for extra in (0, 0.5):
@@ -262,6 +265,8 @@ def configs(tier):
                 for tries in (2, 3):
                     cfg = {"n_tries": tries, "bursts": [{"window": w, "cmds": [(0, 0)] * n1}, {"window": w, "cmds": [(0, 0)] * n2}]}
                     out.append(("two_bursts", cfg, A7 if quick else A8, D if n1 == n2 == 1 else D - 1))
+                    if not quick and not n1 == n2 == 1:
+                        out.append(("two_bursts", cfg, A7, D))
     out.append(("two_bursts", {"n_tries": 3, "bursts": [{"window": 2, "cmds": [(0, 0), (0.5, 0)]},
                                                         {"api": "send_scp", "window": 1, "cmds": [(0, 0)]}]}, LIGHT, D - 1))
     # C: sequence wrap inside the bound: 3-bit sequence space (module's own seqs(mask=7)); k slow
@@ -383,10 +388,13 @@ def run(tier="quick", seed=0):
                     "send_scp, per-command extra timeouts and callbacks that keep the host busy 2.5 timeouts, two consecutive bursts on one connection "
                     "sharing one schedule, 3-bit sequence space (seqs(mask=7)) with 1-3 long-outstanding commands across a wrap; plus a seeded sample "
                     "at depth 9.  non-trivial = at least one fault outcome consumed (or a sequence wrap).  runs per family: %r" % (per_family,),
-            "bound": "schedules to depth %d (%s: extras %d, wrap family %d), bursts <= 3 commands, window <= 2 (wrap family <= 4), n_tries <= 3, two bursts; "
-                     "monitors carry the side condition that no stale datagram is delivered after 2^16-1 later commands (D13)%s" % (
-                         5 if tier == "quick" else 6, tier, 4 if tier == "quick" else 6, 2 if tier == "quick" else 3,
-                         "; full-size 16-bit wrap and the D13 history replayed once" if tier == "thorough" else ""),
+            "bound": ("quick: single bursts and send_scp to depth 5, extras and two bursts to depth 4 (two one-command bursts: 5), wrap family depth 2"
+                      if tier == "quick" else
+                      "thorough: single bursts to depth 6 (depth 7 without the late duplicate for >= 2 commands and >= 2 tries; depth 5 with all ten outcomes "
+                      "under their own names), send_scp 6, extras 5, two bursts depth 6 without / depth 5 with the late duplicate, wrap family depth 3, "
+                      "full-size 16-bit wrap and the D13 history replayed once") +
+                     "; bursts <= 3 commands, window <= 2 (wrap family <= 4), n_tries <= 3; seeded sample at depth 9; monitors carry the side condition that "
+                     "no stale datagram is delivered after 2^16-1 later commands on the connection (known finding D13)",
             "exhaustive": True, "label": "bounded", "samples": samples, "violations": viol,
             "seconds": round(_time.time() - t0, 2)}
 
